@@ -11,7 +11,9 @@ RULE = ("ledger: Hypothesis-generated broker histories (1-4 contracts: user-defi
         "broker NLV is compared with the independent ledger deposit + interest - fees + sum M(q*liq - sum dq*acq). "
         "twin: same history (rate 0) run with every spot-like contract swapped for a margined one of the same multiplier and vice versa; "
         "NLV paths must agree. sparse: same histories, but the broker is valued only at the history's own NLV queries and once at the "
-        "end (so a quote move followed directly by a trade is not preceded by a valuation). Non-trivial = an add to an existing position under bid<ask, or a flip, or a trade in a fully-paid "
+        "end (so a quote move followed directly by a trade is not preceded by a valuation). pair: two accounts (separate exchange and "
+        "broker objects) trading the SAME contracts with their own histories, stepped in alternation by a generated schedule; each must "
+        "satisfy the identity on its own. Non-trivial = an add to an existing position under bid<ask, or a flip, or a trade in a fully-paid "
         "contract with multiplier != 1.")
 ASSUMPTIONS = [
     "money identity tolerance abs <= 1e-9 * (deposit + sum|traded notional| + sum|open notional| + |interest|)",
@@ -83,8 +85,63 @@ def run_sparse(case):
     return res
 
 
+@st.composite
+def pair_cases(draw, tier="quick"):
+    """Two accounts over the SAME contract specifications (same symbols, separate exchanges and brokers) with their own
+    histories, driven in alternation by a schedule."""
+    a = draw(B.histories(tier, margined_bias=True, max_ops=20))
+    b = draw(B.histories(tier, margined_bias=True, max_ops=20))
+    b["contracts"] = a["contracts"]                        # the same contracts are traded by both accounts
+    if a.get("dyadic") != b.get("dyadic"):
+        b["dyadic"] = a["dyadic"]
+    n = len(a["contracts"])
+    for op in b["ops"]:                                    # keep contract indices in range
+        if op[0] in ("Q", "QF", "QR", "T") and isinstance(op[1], int):
+            op[1] = op[1] % n
+        if op[0] == "R":
+            op[1] = (list(op[1]) + [None] * n)[:n]
+    return {"a": a, "b": b, "schedule": draw(st.lists(st.integers(0, 1), min_size=2, max_size=60))}
+
+
+def run_pair(case):
+    """Each of two accounts living in one process must satisfy the identity on its own."""
+    res = Result()
+    outs = [{}, {}]
+    results = [Result(), Result()]
+    gens = [B.history_steps(case["a"], "c01", results[0], outs[0]), B.history_steps(case["b"], "c01", results[1], outs[1])]
+    alive = [True, True]
+    alternations, last = 0, None
+    sched = list(case["schedule"])
+    k = 0
+    while any(alive):
+        pick = sched[k % len(sched)] if k < 4 * len(sched) else (0 if alive[0] else 1)
+        k += 1
+        if not alive[pick]:
+            pick = 1 - pick
+        try:
+            next(gens[pick])
+            if last is not None and last != pick:
+                alternations += 1
+            last = pick
+        except StopIteration:
+            alive[pick] = False
+        if results[pick].violations:
+            res.fail("account %s (driven in alternation with another account trading the same contracts): %s" % ("AB"[pick], results[pick].violations[0]))
+            break
+    stats = outs[0].get("stats") or {"adds_under_spread": 0, "flips": 0, "mult_spot_trades": 0, "rebalances": 0, "insolvent": False,
+                                      "quote_moves_between": 0}
+    classify(res, stats, case["a"])
+    for r in results:
+        for c in r.classes:
+            res.tag(c)
+    res.nontrivial = alternations >= 2 and all(o.get("stats", {}).get("trades", 0) >= 1 for o in outs)
+    res.tag("two-accounts")
+    return res
+
+
 PARTS = [
     Part("ledger", strategy=lambda tier: B.histories(tier), run=run_ledger, quick=4000, thorough=400000),
     Part("twin", strategy=lambda tier: B.histories(tier), run=run_twin, quick=1500, thorough=100000),
     Part("sparse", strategy=lambda tier: B.histories(tier), run=run_sparse, quick=4000, thorough=400000),
+    Part("pair", strategy=lambda tier: pair_cases(tier), run=run_pair, quick=2000, thorough=150000),
 ]
